@@ -61,6 +61,9 @@ enum Misbehave {
 	IncompleteBatch,
 	/// a batch reply with as many entries as the batch in which one answer is given twice and another is missing
 	DupReplacingBatch,
+	/// a batch reply whose number of answers differs from the batch although the lowest and the highest id are present:
+	/// one answer given twice with none missing, or an id in the middle left out
+	BatchCountMismatch,
 }
 
 #[derive(Debug, Clone)]
@@ -101,7 +104,8 @@ fn gen_case(seed: u64, real_time: bool) -> CaseSpec {
 	let misbehave = if real_time {
 		Misbehave::None
 	} else {
-		match r.below(11) {
+		match r.below(12) {
+			11 => Misbehave::BatchCountMismatch,
 			0..=5 => Misbehave::None,
 			6 => Misbehave::Duplicate,
 			7 => Misbehave::Omit,
@@ -375,10 +379,31 @@ async fn run_case(spec: &CaseSpec) -> CaseOut {
 				} else {
 					None
 				};
+				// count mismatch with both ends of the id range present
+				let idnum = |v: &Value| v.as_u64().or_else(|| v.as_str().and_then(|s| s.parse::<u64>().ok())).unwrap_or(0);
+				let (lo, hi) = (entries.iter().map(|e| idnum(&e.0)).min().unwrap_or(0), entries.iter().map(|e| idnum(&e.0)).max().unwrap_or(0));
+				let (mut extra_dup, mut omit_middle): (Option<usize>, Option<usize>) = (None, None);
+				if spec.misbehave == Misbehave::BatchCountMismatch && entries.len() >= 2 {
+					if r.bool() {
+						extra_dup = Some(r.usize(entries.len()));
+						did_misbehave = true;
+					} else if let Some(k) = (0..entries.len()).find(|k| idnum(&entries[*k].0) != lo && idnum(&entries[*k].0) != hi) {
+						omit_middle = Some(k);
+						did_misbehave = true;
+					}
+				}
 				for (k, (id, tag)) in entries.iter().enumerate() {
 					if incomplete && k == 0 {
 						did_misbehave = true;
 						continue;
+					}
+					if omit_middle == Some(k) {
+						continue;
+					}
+					if extra_dup == Some(k) {
+						let p = payload(tag, id, &mut first_nonce);
+						same_array_duplicates.push((tag.clone(), p["n"].as_u64().unwrap_or(0)));
+						parts.push(ok_response(id, p));
 					}
 					if let Some((missing, dup)) = dup_replacing {
 						if k == missing {
@@ -391,7 +416,7 @@ async fn run_case(spec: &CaseSpec) -> CaseOut {
 						}
 					}
 					let p = payload(tag, id, &mut first_nonce);
-					if dup_replacing.is_some_and(|(_, d)| d == k) {
+					if dup_replacing.is_some_and(|(_, d)| d == k) || extra_dup == Some(k) {
 						same_array_duplicates.push((tag.clone(), p["n"].as_u64().unwrap_or(0)));
 					}
 					parts.push(if r.chance(1, 5) { err_response(id, 1000, "scripted error", Some(p)) } else { ok_response(id, p) });
@@ -603,7 +628,147 @@ fn record(spec: &CaseSpec, o: CaseOut, ev: &mut Evidence, violations: &mut Vec<V
 	}
 }
 
+/// Sub-run `simultaneous`: eight tasks on a multi-thread runtime start an operation on ONE client at the same instant
+/// (tokio barrier), round after round - single calls, batches of 1..4 entries, subscribe calls. The scripted server waits
+/// until everything of the round is on the wire, checks that the ids outstanding at that moment are pairwise distinct, then
+/// answers every id with a payload naming the tag it saw under that id; every operation must complete with its own tag(s).
+async fn simultaneous_ops(seed: u64, rounds: usize, tasks: usize) -> (usize, Vec<(String, String)>) {
+	let mut violations: Vec<(String, String)> = Vec::new();
+	let mut r = Rng::new(seed);
+	let (client, mut srv) = client(ClientCfg { string_ids: r.bool(), build_path: r.below(4) as u8, ..Default::default() });
+	let mut ops = 0usize;
+	for round in 0..rounds {
+		let barrier = std::sync::Arc::new(tokio::sync::Barrier::new(tasks));
+		let mut hs = Vec::new();
+		let mut expected_msgs = 0usize;
+		for t in 0..tasks {
+			let (c, b) = (client.clone(), barrier.clone());
+			let kind = (r.below(6) as usize + t) % 6;
+			let n = 1 + r.usize(4);
+			expected_msgs += 1;
+			hs.push(tokio::spawn(async move {
+				let tag = format!("r{round}t{t}");
+				b.wait().await;
+				match kind {
+					0 | 1 => {
+						let mut bb = BatchRequestBuilder::new();
+						for j in 0..n {
+							bb.insert("call", rpc_params![format!("{tag}e{j}")]).unwrap();
+						}
+						let res: Result<BatchResponse<Value>, _> = c.batch_request(bb).await;
+						match res {
+							Ok(rp) => rp.into_iter().enumerate().map(|(j, e)| (format!("{tag}e{j}"), e.ok().map(|v| v["tag"].clone()))).collect::<Vec<_>>(),
+							Err(e) => vec![(tag, Some(json!(format!("ERR {:?}", err_kind(&e)))))],
+						}
+					}
+					2 => match c.subscribe::<Value, _>("sub", rpc_params![tag.clone()], "unsub").await {
+						Ok(s) => {
+							// the subscription id the script hands out names the tag it saw
+							let got = match s.kind() {
+								jsonrpsee_core::client::SubscriptionKind::Subscription(jsonrpsee_types::SubscriptionId::Str(x)) => json!(x.to_string()),
+								_ => Value::Null,
+							};
+							vec![(format!("sub-{tag}"), Some(got))]
+						}
+						Err(e) => vec![(tag, Some(json!(format!("ERR {:?}", err_kind(&e)))))],
+					},
+					_ => match c.request::<Value, _>("call", rpc_params![tag.clone()]).await {
+						Ok(v) => vec![(tag, Some(v["tag"].clone()))],
+						Err(e) => vec![(tag, Some(json!(format!("ERR {:?}", err_kind(&e)))))],
+					},
+				}
+			}));
+		}
+		// everything of the round is outstanding before anything is answered
+		let mut msgs: Vec<WireMsg> = Vec::new();
+		while msgs.len() < expected_msgs {
+			match tokio::time::timeout(Duration::from_secs(20), srv.next_msg()).await {
+				Ok(Some((_, m))) => {
+					// (unsubscribe calls of subscriptions dropped in earlier rounds also pass by: answered, not counted)
+					if let WireMsg::Single(q) = &m {
+						if q.method == "unsub" {
+							if let Some(id) = &q.id {
+								srv.push_text(ok_response(id, json!(true)));
+							}
+							continue;
+						}
+					}
+					msgs.push(m);
+				}
+				_ => break,
+			}
+		}
+		let mut seen: HashMap<String, String> = HashMap::new();
+		let mut note = |id: &Option<Value>, tag: &Option<String>, violations: &mut Vec<(String, String)>| {
+			let id = id.clone().unwrap_or(Value::Null).to_string();
+			let tag = tag.clone().unwrap_or_default();
+			if let Some(other) = seen.insert(id.clone(), tag.clone()) {
+				if violations.len() < 10 {
+					violations.push(("wire-id-reused-while-outstanding/simultaneous".into(), format!("round {round}: id {id} is on the wire for {other} and for {tag} at the same time")));
+				}
+			}
+		};
+		for m in &msgs {
+			match m {
+				WireMsg::Single(q) => note(&q.id, &q.tag, &mut violations),
+				WireMsg::Batch(reqs) => {
+					for q in reqs {
+						note(&q.id, &q.tag, &mut violations);
+					}
+				}
+				_ => {}
+			}
+		}
+		for m in msgs.iter().rev() {
+			match m {
+				WireMsg::Single(q) => {
+					if let Some(id) = &q.id {
+						let payload = if q.method == "sub" { json!(format!("sub-{}", q.tag.clone().unwrap_or_default())) } else { json!({"tag": q.tag}) };
+						srv.push_text(ok_response(id, payload));
+					}
+				}
+				WireMsg::Batch(reqs) => {
+					let parts: Vec<String> = reqs.iter().rev().map(|q| ok_response(q.id.as_ref().unwrap_or(&Value::Null), json!({"tag": q.tag}))).collect();
+					srv.push_text(array_of(&parts));
+				}
+				_ => {}
+			}
+		}
+		for h in hs {
+			ops += 1;
+			match tokio::time::timeout(Duration::from_secs(20), h).await {
+				Ok(Ok(pairs)) => {
+					for (want, got) in pairs {
+						if got != Some(json!(want)) && violations.len() < 10 {
+							violations.push(("misrouted/simultaneous".into(), format!("round {round}: the operation tagged {want} completed with {got:?}")));
+						}
+					}
+				}
+				_ => {
+					if violations.len() < 10 {
+						violations.push(("never-completed/simultaneous".into(), format!("round {round}: an operation did not complete although everything on the wire was answered")));
+					}
+				}
+			}
+		}
+		if !client.is_connected() {
+			if violations.len() < 10 {
+				violations.push(("unexpected-connection-error/simultaneous".into(), format!("round {round}: the client gave up the connection in a well-behaved history")));
+			}
+			break;
+		}
+	}
+	(ops, violations)
+}
+
 fn sub_main(ctx: &Ctx, mode: &str) {
+	if mode == "simultaneous" {
+		let rounds: usize = ctx.arg_value("--rounds").and_then(|s| s.parse().ok()).unwrap_or(2000);
+		let (ops, v) = block_on_stress(8, simultaneous_ops(ctx.seed, rounds, 8));
+		let sigs: Vec<String> = v.iter().map(|x| format!("{} ({})", x.0, x.1)).collect();
+		println!("SUBRESULT {}", json!({"mode": mode, "rounds": rounds, "operations": ops, "violation_signatures": sigs}));
+		return;
+	}
 	let n: u64 = ctx.arg_value("--n").and_then(|s| s.parse().ok()).unwrap_or(12);
 	let mut ev = Evidence::new("");
 	let mut v = Vec::new();
@@ -704,6 +869,25 @@ fn main() {
 	}
 
 	let mut inconclusive = None;
+	if !replay {
+		// eight tasks starting operations on one client at the same instant, on real threads
+		let exe = std::env::current_exe().expect("exe");
+		let rounds = ctx.tier.pick(6_000u64, 100_000).to_string();
+		let out = std::process::Command::new(exe).args(["--sub", "simultaneous", "--rounds", &rounds]).env("VERIF_SEED", ctx.seed.to_string()).output();
+		match out.ok().and_then(|o| String::from_utf8(o.stdout).ok()).and_then(|s| s.lines().find_map(|l| l.strip_prefix("SUBRESULT ").map(|j| j.to_string()))) {
+			Some(j) => {
+				let v: Value = serde_json::from_str(&j).unwrap_or(Value::Null);
+				for s in v["violation_signatures"].as_array().cloned().unwrap_or_default() {
+					let s = s.as_str().unwrap_or("?");
+					violations.push(Violation::new(s.split(' ').next().unwrap_or(s).to_string(), s.to_string(), json!({"sub": "simultaneous"})));
+				}
+				ev.evals(v["rounds"].as_u64().unwrap_or(0));
+				ev.count("simultaneous_operations_on_one_client", v["operations"].as_u64().unwrap_or(0));
+				ev.set("simultaneous", v);
+			}
+			None => inconclusive = Some("sub-run 'simultaneous' did not report".to_string()),
+		}
+	}
 	if ctx.tier == Tier::Thorough && !replay {
 		// native stress (8 workers, real time), then the same under ThreadSanitizer, then Miri
 		let exe = std::env::current_exe().expect("exe");
